@@ -137,6 +137,12 @@ impl MemcacheBinaryConnection {
         Ok(())
     }
 
+    /// verification hook: (length, capacity) of the receive buffer
+    #[cfg(memcrs_verif)]
+    pub fn verif_buffer(&self) -> (usize, usize) {
+        (self.buffer.len(), self.buffer.capacity())
+    }
+
     pub async fn shutdown(&mut self) -> io::Result<()> {
         self.stream.shutdown().await?;
         Ok(())
